@@ -73,6 +73,24 @@ Proof.
   intros H; injection H as <-. apply find_some in F as (I & E). cbn in E. assert (d0 = d) by lia. now subst.
 Qed.
 
+Lemma typed_nodes_core infer a b : map core a = map core b -> typed_nodes infer a -> typed_nodes infer b.
+Proof.
+  intros E T i nd En. destruct (core_nth b a i nd (eq_sym E) En) as (nd' & En' & Ec).
+  destruct (T _ _ En') as (dts & D & Ty). unfold core in Ec. injection Ec as E1 E2 E3.
+  exists dts. rewrite <- (core_tys _ _ E), <- E1, <- E2, <- E3. auto.
+Qed.
+
+Lemma typed_nodes_snoc infer out nd dts :
+  typed_nodes infer out -> mapM (dep_get (map n_ty out) (length out)) (n_deps nd) = Ok dts ->
+  n_ty nd = infer (n_op nd) dts -> typed_nodes infer (out ++ [nd]).
+Proof.
+  intros T D Ty i nd0 E. apply nth_error_snoc_inv in E as [(L & E)|(-> & ->)].
+  - destruct (T _ _ E) as (dts0 & D0 & Ty0). exists dts0. split; auto. rewrite map_app.
+    rewrite (mapM_ext _ (dep_get (map n_ty out) i)); auto. intros; apply dep_get_app. rewrite map_length. lia.
+  - exists dts. split; auto. rewrite map_app.
+    rewrite (mapM_ext _ (dep_get (map n_ty out) (length out))); auto. intros; apply dep_get_app. rewrite map_length. lia.
+Qed.
+
 (* operations whose proxies this development covers *)
 Definition simple_meta (o : op) : bool :=
   match o with OArrayToVector | OZip | OA2B | OB2A _ => false | _ => true end.
@@ -82,7 +100,8 @@ Section MetaSem.
   Variables (tape : Z -> option value) (vals : list value).
   Hypothesis Hval : valuation eval_node from_tape nodes tape vals.
   Hypothesis Hct : const_typed nodes.
-  Hypothesis Hrange : forall nd x, In nd nodes -> n_op nd = OConstant (TScalar U64) (VArr [x]) -> 0 <= x < 2 ^ 64.
+  (* a node has fewer than 2^64 dependencies (a Rust Vec cannot be longer) *)
+  Hypothesis Hvec : forall nd, In nd nodes -> Z.of_nat (length (n_deps nd)) < 2 ^ 64.
   Hypothesis Hsimple : forall nd, In nd nodes -> simple_meta (n_op nd) = true.
 
   Definition old_val (d : Z) (w : value) : Prop := 0 <= d /\ nth_error vals (Z.to_nat d) = Some w.
@@ -111,7 +130,7 @@ Section MetaSem.
   (* what a proxy says about the value and type of the old node it is attached to *)
   Definition shape_ok (meta : list (Z * pw)) (m : list (option Z)) (p : proxy) (v : value) (t : ty) : Prop :=
     match p with
-    | PNumber x => v = VArr [x] /\ t = TScalar U64 /\ 0 <= x < 2 ^ 64
+    | PNumber x => v = VArr [x] /\ t = TScalar U64
     | PUnknown => True
     | PTuple l => exists ds ws ts, Forall2 (elem_desc meta m) l ds /\ Forall2 old_val ds ws /\
                                    Forall2 old_ty ds ts /\ v = VTup ws /\ t = TTuple ts
@@ -121,7 +140,7 @@ Section MetaSem.
                                    length l = length ts
     | PVector l => exists ds ws et, Forall2 (elem_desc meta m) l ds /\ Forall2 old_val ds ws /\
                                     Forall (fun d => old_ty d et) ds /\ v = VTup ws /\
-                                    t = TVector (Z.of_nat (length l)) et
+                                    t = TVector (Z.of_nat (length l)) et /\ Z.of_nat (length l) < 2 ^ 64
     | _ => False
     end.
 
@@ -269,20 +288,24 @@ Section MetaSem.
           rel nodes out1 vals vals1 (length pre) simple ->
           exists vals2, valuation eval_node from_tape out2 tape' vals2 /\ sim nodes out2 vals vals2 m /\
                         rel nodes out2 vals vals2 (length pre)
-                            (match mn with Some e => snd e | None => simple end)) /\
+                            (match mn with Some e => snd e | None => simple end) /\
+                        (forall infer, typed_nodes infer out1 ->
+                           (forall dts, mapM (dep_get (map n_ty nodes) (length pre)) (n_deps a) = Ok dts ->
+                                        n_ty a = infer (n_op a) dts) ->
+                           typed_nodes infer out2)) /\
       ((length out < length out1)%nat ->
        0 <= match mn with Some e => snd e | None => simple end < Z.of_nat (length out2)).
 
     Lemma outcome_none out1 : outcome_ok out1 out1 None.
     Proof.
       split; [discriminate|]. split; [|unfold simple; lia].
-      intros tape' vals1 V S R. exists vals1. auto.
+      intros tape' vals1 V S R. exists vals1. auto 6.
     Qed.
 
     Lemma outcome_simple out1 p : shape_ok meta m p v_a (n_ty a) -> outcome_ok out1 out1 (Some (p, simple)).
     Proof.
       intros Sh. split; [intros e E; injection E as <-; exact Sh|]. split; [|cbn [snd]; unfold simple; lia].
-      intros tape' vals1 V S R. exists vals1. auto.
+      intros tape' vals1 V S R. exists vals1. auto 6.
     Qed.
 
     Lemma outcome_resolved out1 e d :
@@ -290,7 +313,7 @@ Section MetaSem.
     Proof.
       intros De Ov Ot. destruct (resolve_elem _ _ _ _ _ _ _ Mo De Ov Ot) as (Sh & Hr).
       split; [intros e0 E; injection E as <-; exact Sh|]. split.
-      - intros tape' vals1 V S R. exists vals1. split; [auto|split; [auto|]]. apply Hr; auto.
+      - intros tape' vals1 V S R. exists vals1. split; [auto|split; [auto|split; [|auto]]]. apply Hr; auto.
       - intros L. destruct De as (_ & Ee & _). apply Hb in Ee. fold out in Ee. lia.
     Qed.
 
@@ -367,10 +390,7 @@ Section MetaSem.
         destruct (old_eval Ft) as (vs & dts & A1 & A2 & A3 & A4). rewrite Eo in A4. cbn in A4. injection A4 as <-.
         destruct t as [[]| | | |]; try (injection Em as <- <-; apply outcome_none).
         destruct v as [[|x [|y l]]|]; try (injection Em as <- <-; apply outcome_none).
-        injection Em as <- <-. apply outcome_simple. cbn. repeat split; auto.
-        + eapply Hct; eauto.
-        + eapply Hrange; eauto.
-        + eapply Hrange; eauto.
+        injection Em as <- <-. apply outcome_simple. cbn. split; auto. eapply Hct; eauto.
       - (* CreateTuple *)
         injection Em as <- <-. apply outcome_simple.
         assert (Ft : from_tape (n_op a) = false) by (rewrite Eo; reflexivity).
@@ -396,6 +416,7 @@ Section MetaSem.
           * inversion Fa; subst. auto.
           * apply IH. now inversion Fa.
         + rewrite Ht. do 2 f_equal. transitivity (length (n_deps a)); [symmetry; eapply Forall2_length'; eauto|symmetry; exact Lel].
+        + pose proof (Hvec a Ia) as Hv. rewrite <- Lel in Hv. exact Hv.
       - (* TupleGet *)
         destruct (forallb _ meta_deps); [|injection Em as <- <-; apply outcome_none].
         remember elements as els eqn:El. destruct els as [|[p j] [|e2 l2]]; try discriminate.
@@ -463,7 +484,7 @@ Section MetaSem.
         inversion Eok as [|? ? ? ? De0 Hr]; subst. inversion Hr as [|? ? ? ? De1 Hnil]; subst. clear Hr Hnil Eok.
         destruct p1 as [idx| | | | | | | |]; try (injection Em as <- <-; apply outcome_none).
         destruct (proxy_of_elem _ _ _ De1) as (vi & ndi & Ovi & Oti & Shi); [discriminate|].
-        destruct Shi as (-> & Eti & Rg).
+        destruct Shi as (-> & Eti).
         assert (Ft : from_tape (n_op a) = false) by (rewrite Eo; reflexivity).
         destruct (old_eval Ft) as (vs & dts & A1 & A2 & A3 & A4). rewrite Eo in A4. rewrite Eda in A1, A2, A3.
         inversion A1 as [|? v0 ? ? Ov0 A1']; subst. inversion A1' as [|? v1 ? ? Ov1 A1'']; subst. inversion A1''; subst.
@@ -473,8 +494,7 @@ Section MetaSem.
         assert (t1 = TScalar U64) by (rewrite <- Eti; eapply old_ty_fun; eauto). subst t1.
         assert (A3' := A3). rewrite <- Eda in A3'. pose proof (Htyped _ _ _ Ea A3') as Ht. rewrite Eo in Ht.
         destruct Ht as (n & it & Edts). injection Edts as -> <-.
-        unfold eval_node in A4. cbn [nth nth_res bind arr_of st_of] in A4. rewrite (as_u64_small _ Rg) in A4.
-        destruct (n <=? idx) eqn:Cn; [discriminate|].
+        unfold eval_node in A4. cbn [nth nth_res bind arr_of st_of] in A4.
         cbn [maybe_vector_get] in Em. destruct obj as [p0 j0]. cbn [fst snd] in Em.
         destruct p0 as [x| |arr|l|l|l|l|x|x]; try (injection Em as <- <-; apply outcome_none).
         + (* Unknown: a fresh VectorGet on the mapped operands *)
@@ -492,7 +512,7 @@ Section MetaSem.
             apply znth_ok in Ej as (_ & Ej). rewrite (map_nth_error n_ty _ _ Ej) in Tj0. injection Tj0 as Tj0.
             rewrite Tj0 in Eet. cbn in Eet. now injection Eet as <-. }
           subst et.
-          exists (vals1 ++ [v_a]). split; [|split].
+          exists (vals1 ++ [v_a]). split; [|split; [|split]].
           * apply valuation_snoc; [split; auto|]. unfold node_sem. cbn [n_op n_deps n_ty from_tape].
             exists [v0; VArr [idx]], [TVector n (n_ty a); TScalar U64]. repeat split.
             -- pose proof (nth_error_Some_lt _ _ _ Vj0). pose proof (nth_error_Some_lt _ _ _ Vj1).
@@ -500,22 +520,30 @@ Section MetaSem.
             -- pose proof (nth_error_Some_lt _ _ _ Tj0) as X0. pose proof (nth_error_Some_lt _ _ _ Tj1) as X1.
                rewrite map_length in X0, X1.
                cbn [mapM]. rewrite (dep_get_intro _ _ _ _ Tj0), (dep_get_intro _ _ _ _ Tj1) by lia. reflexivity.
-            -- unfold eval_node. cbn [nth nth_res bind arr_of st_of]. rewrite (as_u64_small _ Rg), Cn. exact A4.
+            -- unfold eval_node. cbn [nth nth_res bind arr_of st_of]. exact A4.
           * now apply sim_app.
           * split; [lia|]. split.
             -- exists v_a. split; auto. rewrite Nat2Z.id, <- Lv1. apply nth_error_snoc.
             -- exists a. eexists. split; auto. rewrite Nat2Z.id. split; [apply nth_error_snoc|reflexivity].
+          * intros infer T1 Ta. apply (typed_nodes_snoc infer _ _ [TVector n (n_ty a); TScalar U64]); auto.
+            -- pose proof (nth_error_Some_lt _ _ _ Tj0) as X0. pose proof (nth_error_Some_lt _ _ _ Tj1) as X1.
+               rewrite map_length in X0, X1. cbn [n_deps mapM].
+               rewrite (dep_get_intro _ _ _ _ Tj0), (dep_get_intro _ _ _ _ Tj1) by lia. reflexivity.
+            -- cbn [n_ty n_op]. rewrite <- Eo. exact (Ta _ A3').
         + (* A2V *) destruct (proxy_of_elem _ _ _ De0) as (? & ? & _ & _ & []); discriminate.
         + (* Zip *) destruct (proxy_of_elem _ _ _ De0) as (? & ? & _ & _ & []); discriminate.
         + (* Vector *)
           destruct (proxy_of_elem _ _ _ De0) as (v0' & nd0 & Ov0' & Ot0' & Sh); [discriminate|].
-          destruct Sh as (ds & ws & et & F1 & F2 & F3 & -> & Et).
+          destruct Sh as (ds & ws & et & F1 & F2 & F3 & -> & Et & Bl).
           assert (v0 = VTup ws) by (eapply old_val_fun; eauto). subst v0.
           assert (Et0 : TVector n (n_ty a) = TVector (Z.of_nat (length l)) et) by (rewrite <- Et; eapply old_ty_fun; eauto).
           injection Et0 as -> <-.
-          cbn [tup_of bind] in A4. apply znth_ok in A4 as (K0 & A4).
           destruct (znth l idx) as [e| | |] eqn:Ez; try (injection Em as <- <-; apply outcome_none).
-          injection Em as <- <-. apply znth_ok in Ez as (_ & Ez).
+          injection Em as <- <-. apply znth_ok in Ez as (I0 & Ez).
+          assert (Rg : 0 <= idx < 2 ^ 64) by (apply nth_error_Some_lt in Ez; lia).
+          rewrite (as_u64_small _ Rg) in A4.
+          destruct (Z.of_nat (length l) <=? idx) eqn:Cn; [discriminate|].
+          cbn [tup_of bind] in A4. apply znth_ok in A4 as (K0 & A4).
           destruct (Forall2_nth_error _ _ _ _ _ F1 Ez) as (d & Ed' & Dd).
           destruct (Forall2_nth_error _ _ _ _ _ F2 Ed') as (w & Ew & Ow).
           rewrite Forall_forall in F3. pose proof (F3 d (nth_error_In _ _ Ed')) as Otd.
@@ -523,14 +551,27 @@ Section MetaSem.
     Qed.
   End Step.
 
+  Variable infer : op -> list ty -> ty.
+
+  Definition first_tape (pre : list node) (m : list (option Z)) : Prop :=
+    forall i0 nd0 j, nth_error pre i0 = Some nd0 -> from_tape (n_op nd0) = true ->
+                     nth_error m i0 = Some (Some j) ->
+                     forall i', (i' < i0)%nat -> nth_error m i' <> Some (Some j).
+
+  Lemma first_tape_ft pre post m : nodes = pre ++ post -> length m = length pre ->
+    first_tape pre m -> ft_first from_tape nodes m.
+  Proof.
+    intros El L F i0 nd0 j E Ft G i' Li. pose proof (nth_error_Some_lt _ _ _ G) as L0.
+    eapply F; eauto. rewrite El, nth_error_app1 in E by lia. exact E.
+  Qed.
+
   Definition meta_sem (pre : list node) (st : meta_state * Z) : Prop :=
     let '(s, i) := st in
     i = Z.of_nat (length pre) /\ length (ms_map s) = length pre /\
     bounded (ms_map s) (length (ms_out s)) /\
     meta_ok pre (ms_map s) (ms_meta s) /\
-    (forall i0 nd0 j, nth_error pre i0 = Some nd0 -> from_tape (n_op nd0) = true ->
-                      nth_error (ms_map s) i0 = Some (Some j) ->
-                      forall i', (i' < i0)%nat -> nth_error (ms_map s) i' <> Some (Some j)) /\
+    first_tape pre (ms_map s) /\
+    (typed_nodes infer nodes -> typed_nodes infer (ms_out s)) /\
     forall tape', tape_compat from_tape nodes (ms_map s) tape tape' ->
                   exists vals', valuation eval_node from_tape (ms_out s) tape' vals' /\
                                 sim nodes (ms_out s) vals vals' (ms_map s).
@@ -540,7 +581,7 @@ Section MetaSem.
     meta_sem (pre ++ [a]) st'.
   Proof.
     destruct st as [s i], st' as [s' i'].
-    intros El (I1 & I2 & I3 & Mo & I10 & I) St.
+    intros El (I1 & I2 & I3 & Mo & I10 & Ity & I) St.
     rewrite opt_meta_step_eq in St. unfold meta_step' in St. cbn [bind] in St.
     destruct (negb _); [discriminate|].
     apply bind_ok in St as (deps & Ed & St). cbv zeta in St.
@@ -567,26 +608,20 @@ Section MetaSem.
     { apply (f_equal (@length _)) in Ean. now rewrite !map_length in Ean. }
     assert (Etape : from_tape (n_op a) = true -> nn = simple).
     { intros Ft. destruct (Hplain (tape_not_meta _ Ft)) as (_ & ->). reflexivity. }
-    cbn [meta_sem ms_map ms_out ms_meta]. rewrite !app_length; cbn [length]. splits; try lia.
-    - rewrite Lo3. apply bounded_snoc; [eapply bounded_mono; eauto; lia|].
-      intros j E; injection E as <-. exact Hnb.
-    - assert (Mx : meta_ok (pre ++ [a]) (ms_map s ++ [Some nn]) (ms_meta s)) by now apply meta_ok_ext.
-      destruct mn as [e|]; auto.
-      apply (meta_ok_snoc _ _ _ _ _ v_a a); auto.
-      + lia.
-      + subst i. rewrite Nat2Z.id, <- I2. apply nth_error_snoc.
-      + subst i. now rewrite Nat2Z.id.
-      + subst i. now rewrite Nat2Z.id.
-      + rewrite <- (app_nil_r (ms_meta s)). apply shape_ok_mono. now apply Sh.
-    - intros i1 nd1 j1 E1 Ft Ej i'' Li.
+    assert (First' : first_tape (pre ++ [a]) (ms_map s ++ [Some nn])).
+    { intros i1 nd1 j1 E1 Ft Ej i'' Li.
       apply nth_error_snoc_inv in E1 as [(L1 & E1)|(-> & ->)].
       + rewrite nth_error_app1 in Ej by lia. rewrite nth_error_app1 by lia. eapply I10; eauto.
       + rewrite <- I2, nth_error_snoc in Ej. injection Ej as <-. rewrite (Etape Ft).
-        rewrite nth_error_app1 by lia. intros X. apply I3 in X. unfold simple in X. lia.
-    - intros tape' Tc.
+        rewrite nth_error_app1 by lia. intros X. apply I3 in X. unfold simple in X. lia. }
+    assert (Ej : nth_error (ms_map s ++ [Some nn]) (length pre) = Some (Some nn)).
+    { rewrite <- I2. apply nth_error_snoc. }
+    assert (Build : forall tape', tape_compat from_tape nodes (ms_map s ++ [Some nn]) tape tape' ->
+              exists vals2, valuation eval_node from_tape out2 tape' vals2 /\
+                            sim nodes out2 vals vals2 (ms_map s ++ [Some nn]) /\
+                            (typed_nodes infer nodes -> typed_nodes infer out2)).
+    { intros tape' Tc.
       destruct (I tape' (tape_compat_prefix _ _ _ _ _ _ Tc)) as (vals' & V & S).
-      assert (Ej : nth_error (ms_map s ++ [Some nn]) (length pre) = Some (Some nn)).
-      { rewrite <- I2. apply nth_error_snoc. }
       destruct V as (Lv' & Hv').
       assert (V1 : valuation eval_node from_tape out1 tape' (vals' ++ [v_a])).
       { apply valuation_snoc; [split; auto|].
@@ -598,11 +633,34 @@ Section MetaSem.
         - exists v_a. split; auto. unfold simple. rewrite Nat2Z.id, <- Lv'. apply nth_error_snoc.
         - exists a. eexists. split; auto. unfold simple, out1. rewrite Nat2Z.id.
           split; [apply nth_error_snoc|reflexivity]. }
-      destruct (Hc tape' _ V1 S1 R1) as (vals2 & V2 & S2 & R2).
+      destruct (Hc tape' _ V1 S1 R1) as (vals2 & V2 & S2 & R2 & T2).
+      exists vals2. split; auto. split.
+      - apply sim_snoc; auto. intros j E; injection E as <-. now rewrite I2.
+      - intros Htn. destruct (Htn _ _ Ea) as (dts_a & Da & Tya). apply T2.
+        + unfold out1. apply (typed_nodes_snoc infer _ _ dts_a); auto.
+          cbn [n_deps]. eapply deps_tys; eauto.
+        + intros dts D. rewrite Da in D. injection D as <-. exact Tya. }
+    cbn [meta_sem ms_map ms_out ms_meta]. rewrite !app_length; cbn [length]. splits; try lia; auto.
+    - rewrite Lo3. apply bounded_snoc; [eapply bounded_mono; eauto; lia|].
+      intros j E; injection E as <-. exact Hnb.
+    - assert (Mx : meta_ok (pre ++ [a]) (ms_map s ++ [Some nn]) (ms_meta s)) by now apply meta_ok_ext.
+      destruct mn as [e|]; auto.
+      apply (meta_ok_snoc _ _ _ _ _ v_a a); auto.
+      + lia.
+      + subst i. rewrite Nat2Z.id, <- I2. apply nth_error_snoc.
+      + subst i. now rewrite Nat2Z.id.
+      + subst i. now rewrite Nat2Z.id.
+      + rewrite <- (app_nil_r (ms_meta s)). apply shape_ok_mono. now apply Sh.
+    - assert (Ff : ft_first from_tape nodes (ms_map s ++ [Some nn])).
+      { apply (first_tape_ft (pre ++ [a]) post); auto.
+        - rewrite El, <- app_assoc. reflexivity.
+        - rewrite !app_length; cbn [length]. lia. }
+      destruct (Build _ (transport_compat _ _ _ tape Ff)) as (vals2 & _ & _ & T2).
+      intros Htn. eapply typed_nodes_core; [symmetry; exact Ean|exact (T2 Htn)].
+    - intros tape' Tc. destruct (Build tape' Tc) as (vals2 & V2 & S2 & _).
       exists vals2. split.
       + eapply valuation_core; [symmetry; exact Ean|exact V2].
-      + eapply sim_core; [symmetry; exact Ean|]. apply sim_snoc; auto.
-        intros j E; injection E as <-. now rewrite I2.
+      + eapply sim_core; [symmetry; exact Ean|exact S2].
   Qed.
 
   Lemma meta_sem_inv sN :
@@ -613,26 +671,28 @@ Section MetaSem.
     - cbn. splits; auto using bounded_nil.
       + intros i0 e [].
       + intros [|i0] nd0 j E; discriminate.
+      + intros _ [|i0] nd0 E; discriminate.
       + intros tape' _. exists []. split; [apply valuation_nil|apply sim_nil].
     - intros pre a post s s' El I St. eapply meta_sem_step; eauto.
   Qed.
 End MetaSem.
 
 (* value preservation of the meta-operation pass on graphs without ArrayToVector, Zip, A2B, B2A *)
-Theorem meta_sem_thm nodes o p tape vals :
+Theorem meta_sem_thm infer nodes o p tape vals :
   valuation eval_node from_tape nodes tape vals ->
   const_typed nodes ->
-  (forall nd x, In nd nodes -> n_op nd = OConstant (TScalar U64) (VArr [x]) -> 0 <= x < 2 ^ 64) ->
+  (forall nd, In nd nodes -> Z.of_nat (length (n_deps nd)) < 2 ^ 64) ->
   (forall nd, In nd nodes -> simple_meta (n_op nd) = true) ->
   meta_typed nodes ->
   opt_meta nodes o = Ok p ->
   ft_first from_tape nodes (po_map p) /\
+  (typed_nodes infer nodes -> typed_nodes infer (po_nodes p)) /\
   forall tape', tape_compat from_tape nodes (po_map p) tape tape' ->
     exists vals', valuation eval_node from_tape (po_nodes p) tape' vals' /\
                   sim nodes (po_nodes p) vals vals' (po_map p).
 Proof.
   intros V Ct Rg Sm Ty H. rewrite opt_meta_unfold in H.
   apply bind_ok in H as ([s i] & E & H). injection H as <-. cbn [po_nodes po_map].
-  apply (meta_sem_inv nodes o tape vals V Ct Rg Sm Ty) in E as (_ & _ & _ & _ & F & I).
-  split; [intros i0 nd0 j E0 Ft G i' L; eapply F; eauto|exact I].
+  apply (meta_sem_inv nodes o tape vals V Ct Rg Sm Ty infer) in E as (_ & L & _ & _ & F & T & I).
+  split; [|split; auto]. apply first_tape_ft with (pre := nodes) (post := []); auto. now rewrite app_nil_r.
 Qed.
